@@ -34,6 +34,8 @@ pub struct Slot {
 const N_GLOBAL_FIELDS: u8 = 7;
 const N_INPUT_FIELDS: u8 = 38;
 const N_OUTPUT_FIELDS: u8 = 17;
+/// input slots 38..43 (review g5, C14-2) are drawn only by `families_ext`
+const N_INPUT_FIELDS_EXT: u8 = 44;
 
 fn slot_tape(seed: &[u8; 32], s: Slot) -> Vec<u8> {
     let mut out = Vec::new();
@@ -48,7 +50,10 @@ fn slot_tape(seed: &[u8; 32], s: Slot) -> Vec<u8> {
 }
 
 /// the map key for keyed fields depends only on (case seed, level, pos, field, key index)
-fn apply_slot(p: &mut Pset, s: Slot, seed: &[u8; 32]) -> Option<&'static str> {
+/// `ext` = Some(descendant index) in `families_ext`: there the global tx-modifiable slot ORs a byte that
+/// depends on the descendant into the flags (each flag bit is a field of its own: two descendants set
+/// disjoint or identical bits), and the input slots 38..43 exist.
+fn apply_slot(p: &mut Pset, s: Slot, seed: &[u8; 32], ext: Option<usize>) -> Option<&'static str> {
     let bytes = slot_tape(seed, s);
     let t = &mut Tape::new(&bytes);
     let pl = pool();
@@ -89,7 +94,20 @@ fn apply_slot(p: &mut Pset, s: Slot, seed: &[u8; 32]) -> Option<&'static str> {
                         Some("global.scalars")
                     }
                 }
-                2 => set_opt!(g.tx_data.tx_modifiable, t.u8(), "global.tx_modifiable"),
+                2 => match ext {
+                    None => set_opt!(g.tx_data.tx_modifiable, t.u8(), "global.tx_modifiable"),
+                    Some(di) => {
+                        let choices = t.bytes(4);
+                        let old = g.tx_data.tx_modifiable;
+                        let new = old.unwrap_or(0) | choices[di % 4];
+                        if old == Some(new) {
+                            None
+                        } else {
+                            g.tx_data.tx_modifiable = Some(new);
+                            Some("global.tx_modifiable(bits per descendant)")
+                        }
+                    }
+                },
                 3 => set_opt!(g.elements_tx_modifiable_flag, t.u8(), "global.elements_tx_modifiable_flag"),
                 4 => {
                     let l = t.below(12);
@@ -108,8 +126,48 @@ fn apply_slot(p: &mut Pset, s: Slot, seed: &[u8; 32]) -> Option<&'static str> {
             if n == 0 {
                 return None;
             }
+            // lock-time context for the id-neutral lock-time slots
+            let heights: Vec<u32> = p.inputs().iter().filter_map(|i| i.required_height_locktime).map(|h| h.to_consensus_u32()).collect();
+            let fallback = p.global.tx_data.fallback_locktime;
             let i = &mut p.inputs_mut()[s.pos as usize % n];
             match s.field {
+                // 38..43: optional fields with merge code of their own (cmp::max / merge!) that are id-neutral
+                // in the situations constructed here; descendants whose id changes all the same are discarded
+                38 => {
+                    // a height that another input's requirement already covers, or 0 next to a zero fallback
+                    let lo = heights.iter().copied().min().unwrap_or(0);
+                    let hi = heights.iter().copied().max().unwrap_or(0);
+                    let h = t.choose(&[0u32, lo, hi, hi / 2]);
+                    match elements::locktime::Height::from_consensus(h) {
+                        Ok(h) => set_opt!(i.required_height_locktime, h, "in.required_height_locktime"),
+                        Err(_) => None,
+                    }
+                }
+                39 => {
+                    // a time lock beside a height lock of the same input (the height is preferred), or the
+                    // fallback's own time
+                    let tm = match fallback {
+                        Some(LockTime::Seconds(x)) if i.required_height_locktime.is_none() || t.bool() => x,
+                        _ => gp::gen_time(t),
+                    };
+                    set_opt!(i.required_time_locktime, tm, "in.required_time_locktime")
+                }
+                40 => {
+                    if i.issuance_value_comm.is_some() {
+                        set_opt!(i.issuance_value_amount, t.edgy_u64(), "in.issuance_value_amount(beside commitment)")
+                    } else {
+                        None
+                    }
+                }
+                41 => {
+                    if i.issuance_inflation_keys_comm.is_some() {
+                        set_opt!(i.issuance_inflation_keys, t.edgy_u64(), "in.issuance_inflation_keys(beside commitment)")
+                    } else {
+                        None
+                    }
+                }
+                42 => set_opt!(i.issuance_blinding_nonce, elements::secp256k1_zkp::ZERO_TWEAK, "in.issuance_blinding_nonce(zero)"),
+                43 => set_opt!(i.issuance_asset_entropy, [0u8; 32], "in.issuance_asset_entropy(zero)"),
                 0 => set_opt!(i.non_witness_utxo, gp::gen_small_tx(t), "in.non_witness_utxo"),
                 1 => set_opt!(i.witness_utxo, gen::gen_txout(t, &TxOpts { big: false, witness: false, ..TxOpts::default() }), "in.witness_utxo"),
                 2 => {
@@ -242,6 +300,22 @@ fn gen_slot(t: &mut Tape) -> Slot {
     Slot { level, pos: t.below(3) as u8, field, key: t.below(3) as u8 }
 }
 
+fn gen_slot_ext(t: &mut Tape) -> Slot {
+    let level = t.choose(&[0u8, 1, 1, 1, 2, 2]);
+    let field = match level {
+        0 => t.choose(&[0u8, 1, 2, 2, 2, 3, 4, 5, 6]),
+        1 => {
+            if t.chance(72) {
+                t.range(N_INPUT_FIELDS as usize, N_INPUT_FIELDS_EXT as usize - 1) as u8
+            } else {
+                t.below(N_INPUT_FIELDS as usize) as u8
+            }
+        }
+        _ => t.below(N_OUTPUT_FIELDS as usize) as u8,
+    };
+    Slot { level, pos: t.below(3) as u8, field, key: t.below(3) as u8 }
+}
+
 fn uid(p: &Pset) -> Result<Option<[u8; 32]>, Failure> {
     Ok(guard::guard("unique_id", 0, || p.unique_id())?.ok().map(|x| x.to_byte_array()))
 }
@@ -253,10 +327,16 @@ fn do_merge(a: &Pset, b: &Pset) -> Result<Result<Pset, PsetError>, Failure> {
     Ok(r.map(|()| x))
 }
 
-fn raw_maps(p: &Pset) -> Option<Vec<BTreeMap<Vec<u8>, Vec<u8>>>> {
-    let bytes = serialize(p);
-    let maps: Vec<RawMap> = psetraw::split(&bytes)?;
-    Some(maps.into_iter().map(|m| m.into_iter().map(|pr| (pr.key, pr.value)).collect()).collect())
+type KvMaps = Vec<BTreeMap<Vec<u8>, Vec<u8>>>;
+
+/// the raw key/value maps of a PSET; the library's serializer runs under the guard, so a panic in it is
+/// reported as a violation with the library's location
+fn raw_maps(p: &Pset) -> Result<KvMaps, Failure> {
+    let bytes = guard::guard("serialize(pset)", 0, || serialize(p))?;
+    let Some(maps): Option<Vec<RawMap>> = psetraw::split(&bytes) else {
+        return Err(Failure::panic("raw split failed".into(), "src/props/c14.rs".into()));
+    };
+    Ok(maps.into_iter().map(|m| m.into_iter().map(|pr| (pr.key, pr.value)).collect()).collect())
 }
 
 /// keys whose values are combined by rule rather than copied (presence is still required)
@@ -272,9 +352,12 @@ fn describe_key(map_index: usize, nin: usize, key: &[u8]) -> String {
 
 /// every key/value of either operand must be in the merged PSET
 fn check_contains(result: &Pset, operand: &Pset, which: &str, ctx: &mut Ctx) -> R {
-    let (Some(r), Some(o)) = (raw_maps(result), raw_maps(operand)) else {
-        return Err(Failure::panic("raw split failed".into(), "src/props/c14.rs".into()));
-    };
+    check_contains_except(result, operand, which, None, ctx)
+}
+
+/// `exempt`: one global raw key whose value is decided by a separate oracle (the reconciled xpub)
+fn check_contains_except(result: &Pset, operand: &Pset, which: &str, exempt: Option<&[u8]>, ctx: &mut Ctx) -> R {
+    let (r, o) = (raw_maps(result)?, raw_maps(operand)?);
     ensure_eq!(r.len(), o.len(), "merged PSET has a different number of maps");
     let nin = operand.inputs().len();
     for (mi, om) in o.iter().enumerate() {
@@ -295,7 +378,24 @@ fn check_contains(result: &Pset, operand: &Pset, which: &str, ctx: &mut Ctx) -> 
                     return Err(Failure::new(format!("merge lost a field that is present in the {} operand: {} (value {})", which, what, hex(&v[..v.len().min(40)]))));
                 }
                 Some(rv) => {
-                    if rv != v && !combined_by_rule(mi, k) {
+                    if mi == 0 && exempt == Some(&k[..]) {
+                        continue;
+                    }
+                    if combined_by_rule(mi, k) {
+                        // flags are ORed: every bit set in an operand is set in the result
+                        let lost = v.len() != rv.len() || v.iter().zip(rv.iter()).any(|(a, b)| a & b != *a);
+                        if lost {
+                            return Err(Failure::new(format!(
+                                "merge lost modifiable-flag bits of the {} operand: {} is {} in the operand and {} in the result",
+                                which,
+                                describe_key(mi, nin, k),
+                                hex(v),
+                                hex(rv)
+                            )));
+                        }
+                        continue;
+                    }
+                    if rv != v {
                         return Err(Failure::new(format!(
                             "merge changed the value of {}: operand {} has {}, result has {}",
                             describe_key(mi, nin, k),
@@ -317,7 +417,7 @@ fn pset_eq(a: &Pset, b: &Pset) -> bool {
 
 /// human-readable difference of two PSETs by raw key
 fn diff_maps(a: &Pset, b: &Pset) -> String {
-    let (Some(x), Some(y)) = (raw_maps(a), raw_maps(b)) else { return "raw split failed".into() };
+    let (Ok(x), Ok(y)) = (raw_maps(a), raw_maps(b)) else { return "serialization of a merged PSET failed".into() };
     let nin = a.inputs().len();
     let mut out = Vec::new();
     for mi in 0..x.len().max(y.len()) {
@@ -340,6 +440,16 @@ fn diff_maps(a: &Pset, b: &Pset) -> String {
 }
 
 fn families(t: &mut Tape, ctx: &mut Ctx) -> R {
+    families_impl(t, ctx, false)
+}
+
+/// the same with the extended slot table (lock-time and issuance fields, per-descendant flag bits) and one
+/// more tape-chosen order and grouping
+fn families_ext(t: &mut Tape, ctx: &mut Ctx) -> R {
+    families_impl(t, ctx, true)
+}
+
+fn families_impl(t: &mut Tape, ctx: &mut Ctx, ext: bool) -> R {
     let seed = t.arr32();
     let anc = gp::gen_pset(t, &PsetOpts { extractable: true, ..PsetOpts::default() });
     let Some(id0) = uid(&anc)? else { return Ok(()) };
@@ -348,13 +458,13 @@ fn families(t: &mut Tape, ctx: &mut Ctx) -> R {
     let mut slots_used: Vec<Vec<Slot>> = Vec::new();
     let mut labels: Vec<Vec<&'static str>> = Vec::new();
     let mut registry: BTreeMap<(usize, Vec<u8>), Vec<u8>> = BTreeMap::new();
-    for _ in 0..k {
+    for di in 0..k {
         let mut d = anc.clone();
         let n = 1 + t.below(8);
         let mut used = Vec::new();
         let mut lab = Vec::new();
         for _ in 0..n {
-            let mut s = gen_slot(t);
+            let mut s = if ext { gen_slot_ext(t) } else { gen_slot(t) };
             // normalise the position so that equal effective positions are equal slots
             let n = match s.level {
                 1 => d.inputs().len(),
@@ -375,14 +485,18 @@ fn families(t: &mut Tape, ctx: &mut Ctx) -> R {
             // the family or carries the value the family already knows for it ("same key => identical
             // value, else disjoint keys")
             let mut scratch = d.clone();
-            if let Some(l) = apply_slot(&mut scratch, s, &seed) {
-                let (Some(before), Some(after)) = (raw_maps(&d), raw_maps(&scratch)) else { continue };
+            if let Some(l) = apply_slot(&mut scratch, s, &seed, if ext { Some(di) } else { None }) {
+                let (before, after) = (raw_maps(&d)?, raw_maps(&scratch)?);
                 let mut ok = before.len() == after.len();
                 let mut fresh: Vec<((usize, Vec<u8>), Vec<u8>)> = Vec::new();
                 if ok {
                     for (mi, m) in after.iter().enumerate() {
                         for (k, v) in m {
                             if before[mi].get(k) != Some(v) {
+                                if ext && combined_by_rule(mi, k) {
+                                    // flag bits: combined by OR, not copied; descendants may set different bits
+                                    continue;
+                                }
                                 match registry.get(&(mi, k.clone())) {
                                     Some(known) if known != v => ok = false,
                                     _ => fresh.push(((mi, k.clone()), v.clone())),
@@ -503,6 +617,40 @@ fn families(t: &mut Tape, ctx: &mut Ctx) -> R {
             check_contains(&base, d, "a folded", ctx)?;
         }
         ctx.class("family:>=3-descendants");
+        if ext {
+            // one more order and one more grouping, both from the tape
+            let mut perm = base_order.clone();
+            for i in (1..perm.len()).rev() {
+                let j = t.below(i + 1);
+                perm.swap(i, j);
+            }
+            match fold(&perm)? {
+                Some(x) => {
+                    if !pset_eq(&x, &base) {
+                        return Err(Failure::new(format!("merging {} descendants in order {:?} differs from order {:?}; {}", n, perm, base_order, diff_maps(&x, &base))));
+                    }
+                    ensure!(uid(&x)? == Some(id0), "merging {} descendants in order {:?} changed the unique id", n, perm);
+                }
+                None => return Err(Failure::new(format!("merging descendants in order {:?} failed", perm))),
+            }
+            ctx.eval();
+            // (perm[..cut] folded) + (perm[cut..] folded)
+            let cut = 1 + t.below(n - 1);
+            let (l, r) = (fold(&perm[..cut])?, fold(&perm[cut..])?);
+            match (l, r) {
+                (Some(l), Some(r)) => match do_merge(&l, &r)? {
+                    Ok(x) => {
+                        if !pset_eq(&x, &base) {
+                            return Err(Failure::new(format!("grouped merge ({:?}) + ({:?}) differs from the left fold; {}", &perm[..cut], &perm[cut..], diff_maps(&x, &base))));
+                        }
+                    }
+                    Err(e) => return Err(Failure::new(format!("grouped merge ({:?}) + ({:?}) failed: {}", &perm[..cut], &perm[cut..], e))),
+                },
+                _ => return Err(Failure::new(format!("merging a group of descendants of order {:?} split at {} failed", perm, cut))),
+            }
+            ctx.eval();
+            ctx.class("family:extra-order-and-grouping");
+        }
     }
     // non-triviality: different fields in the same map, or both set an optional field
     let same_map_diff = slots_used[0].iter().any(|x| slots_used[1].iter().any(|y| x.level == y.level && x.pos == y.pos && x.field == y.field && x.key != y.key));
@@ -526,39 +674,170 @@ fn families(t: &mut Tape, ctx: &mut Ctx) -> R {
 }
 
 fn different_ids(t: &mut Tape, ctx: &mut Ctx) -> R {
-    let a = gp::gen_pset(t, &PsetOpts { extractable: true, ..PsetOpts::default() });
+    let mut a = gp::gen_pset(t, &PsetOpts { extractable: true, ..PsetOpts::default() });
+    // change identifying data (review g5, C14-5: every component of the unsigned transaction, and the
+    // number of maps); pairs whose ids turn out equal or not computable are skipped and counted
+    let kind = t.below(14);
+    if a.inputs().is_empty() {
+        let mut i = gp::gen_input(t, 60);
+        i.required_time_locktime = None;
+        a.add_input(i);
+    }
+    if a.outputs().is_empty() {
+        let n = a.inputs().len();
+        a.add_output(gp::gen_output(t, 60, n));
+    }
     let mut b = a.clone();
-    // change identifying data
-    let what = match t.below(3) {
-        0 if !b.inputs().is_empty() => {
+    let pl = pool();
+    let what = match kind {
+        0 => {
             let k = t.below(b.inputs().len());
             let mut x = b.inputs()[k].previous_txid.to_byte_array();
             x[t.below(32)] ^= 1 << t.below(8);
             b.inputs_mut()[k].previous_txid = elements::Txid::from_byte_array(x);
             "prev txid"
         }
-        1 if !b.outputs().is_empty() => {
+        1 => {
             let k = t.below(b.outputs().len());
             let mut s = b.outputs()[k].script_pubkey.to_bytes();
             s.push(0x51);
             b.outputs_mut()[k].script_pubkey = elements::Script::from(s);
             "output script"
         }
-        _ => {
+        2 => {
             b.global.tx_data.version ^= 1 << t.below(32);
             "tx version"
+        }
+        3 => {
+            let mut i = gp::gen_input(t, 60);
+            i.required_time_locktime = None;
+            i.required_height_locktime = None;
+            b.add_input(i);
+            "one more input"
+        }
+        4 => {
+            let n = b.inputs().len();
+            let o = gp::gen_output(t, 60, n);
+            b.add_output(o);
+            "one more output"
+        }
+        5 => {
+            let k = t.below(b.outputs().len());
+            b.remove_output(k);
+            "one output fewer"
+        }
+        6 => {
+            let k = t.below(b.inputs().len());
+            b.remove_input(k);
+            "one input fewer"
+        }
+        7 => {
+            let k = t.below(b.inputs().len());
+            b.inputs_mut()[k].previous_output_index ^= 1 << t.below(30);
+            "prev output index"
+        }
+        8 => {
+            let k = t.below(b.inputs().len());
+            b.inputs_mut()[k].previous_output_index ^= if t.bool() { 1 << 30 } else { 1 << 31 };
+            "prevout pegin / issuance flag bit"
+        }
+        9 => {
+            let k = t.below(b.outputs().len());
+            let o = &mut b.outputs_mut()[k];
+            match (o.amount_comm, o.amount) {
+                (Some(c), _) => {
+                    let j = t.below(pl.commitments.len());
+                    let other = pl.commitments[j];
+                    o.amount_comm = Some(if other == c { pl.commitments[(j + 1) % pl.commitments.len()] } else { other });
+                    "output amount commitment"
+                }
+                (None, Some(x)) => {
+                    o.amount = Some(x ^ (1 << t.below(64)));
+                    "output explicit amount"
+                }
+                (None, None) => "output amount (absent)",
+            }
+        }
+        10 => {
+            let k = t.below(b.outputs().len());
+            let o = &mut b.outputs_mut()[k];
+            match (o.asset_comm, o.asset) {
+                (Some(_), _) => {
+                    o.asset_comm = Some(pl.generators[t.below(pl.generators.len())]);
+                    "output asset commitment"
+                }
+                (None, Some(x)) => {
+                    let y = elements::AssetId::from_byte_array(t.arr32());
+                    o.asset = Some(if y == x { pl.assets[0] } else { y });
+                    "output explicit asset"
+                }
+                (None, None) => "output asset (absent)",
+            }
+        }
+        11 => {
+            // decides only when no input requires a lock time
+            let old = b.global.tx_data.fallback_locktime.map_or(0, |l| l.to_consensus_u32());
+            b.global.tx_data.fallback_locktime = Some(LockTime::from_consensus(old ^ (1 << t.below(32))));
+            "fallback lock time"
+        }
+        12 => {
+            let k = t.below(b.outputs().len());
+            let o = &mut b.outputs_mut()[k];
+            o.ecdh_pubkey = match o.ecdh_pubkey {
+                Some(_) if t.bool() => None,
+                _ => Some(gp::gen_btc_key(t)),
+            };
+            "output nonce (ecdh key)"
+        }
+        _ => {
+            let k = t.below(b.inputs().len());
+            let i = &mut b.inputs_mut()[k];
+            match t.below(3) {
+                0 => {
+                    i.issuance_value_amount = Some(i.issuance_value_amount.unwrap_or(0) ^ (1 << t.below(64)));
+                    "issuance amount"
+                }
+                1 => {
+                    let mut e = i.issuance_asset_entropy.unwrap_or_default();
+                    e[t.below(32)] ^= 1 << t.below(8);
+                    i.issuance_asset_entropy = Some(e);
+                    "issuance entropy"
+                }
+                _ => {
+                    let h = i.required_height_locktime.map_or(0, |h| h.to_consensus_u32());
+                    let h2 = (h ^ (1 << t.below(28))) % 500_000_000;
+                    i.required_height_locktime = elements::locktime::Height::from_consensus(h2).ok();
+                    "required height lock time"
+                }
+            }
         }
     };
     let (ia, ib) = (uid(&a)?, uid(&b)?);
     if ia.is_none() || ib.is_none() || ia == ib {
+        ctx.class(&format!("different-ids:skipped({}: id unchanged or not computable)", what));
         return Ok(());
     }
-    let r = do_merge(&a, &b)?;
-    ctx.eval();
-    match r {
-        Err(PsetError::UniqueIdMismatch { .. }) => {}
-        Err(e) => return Err(Failure::new(format!("PSETs with different unique ids ({} changed) are refused with {:?} instead of UniqueIdMismatch", what, e))),
-        Ok(_) => return Err(Failure::new(format!("PSETs with different unique ids ({} changed) were merged", what))),
+    for (x, y, order) in [(&a, &b, "a.merge(b)"), (&b, &a, "b.merge(a)")] {
+        let r = do_merge(x, y)?;
+        ctx.eval();
+        // refused = any Err (the statement does not name the variant)
+        match r {
+            Err(PsetError::UniqueIdMismatch { .. }) => {}
+            Err(_) => ctx.class("different-ids:refused-with-another-error-variant"),
+            Ok(m) => {
+                return Err(Failure::new(format!(
+                    "PSETs with different unique ids ({} changed; {} / {} inputs, {} / {} outputs) were merged by {}: result has {} inputs, {} outputs",
+                    what,
+                    a.inputs().len(),
+                    b.inputs().len(),
+                    a.outputs().len(),
+                    b.outputs().len(),
+                    order,
+                    m.inputs().len(),
+                    m.outputs().len()
+                )))
+            }
+        }
     }
     ctx.class(&format!("different-ids:{}", what));
     ctx.nontrivial(&(what, hex(&ia.unwrap_or([0; 32]))));
@@ -649,6 +928,9 @@ fn xpub_sources(idx: u64, seed: u64, ctx: &mut Ctx) -> R {
                 ensure!(got == Some(w), "{}: key sources {:?} / {:?} must be reconciled to the longer one {:?}, got {:?}", order, s1, s2, w, got);
             }
             (Err(PsetError::MergeConflict(_)), None) => {}
+            // the unique ids are equal by construction, so any refusal is the conflict report; the variant is
+            // counted, not demanded
+            (Err(_), None) => ctx.class("xpub:conflict-reported-with-another-error-variant"),
             (Ok(m), None) => {
                 if rel == 6 && ctx.is_known(KF_XPUB_FINGERPRINT) {
                     ctx.class("known:xpub-fingerprint");
@@ -664,12 +946,310 @@ fn xpub_sources(idx: u64, seed: u64, ctx: &mut Ctx) -> R {
                 )));
             }
             (Err(e), Some(_)) => return Err(Failure::new(format!("{}: reconcilable key sources {:?} / {:?} gave {:?}", order, s1, s2, e))),
-            (Err(e), None) => return Err(Failure::new(format!("{}: conflicting key sources are refused with {:?}, not MergeConflict", order, e))),
         }
     }
     ctx.class(&format!("xpub-relation:{}", rel));
     ctx.nontrivial(&(rel, base));
     let _ = LockTime::ZERO;
+    Ok(())
+}
+
+/// Key-source relations the first table does not reach, in populated PSETs (review g5, C14-1 / C14-3):
+/// the mismatch position of unrelated sources is chosen over the whole overlap, empty paths on both
+/// sides, suffix pairs with equal fingerprints, paths of up to 8 elements; and the operands carry other
+/// xpubs (ordered before and after the tested one), a scalar, flags, proprietary and unknown pairs, an
+/// input and an output field, which a reconciling merge must keep.
+fn xpub_sources_ext(idx: u64, seed: u64, ctx: &mut Ctx) -> R {
+    let rnd = seeded_bytes(seed, idx, 4096);
+    let mut t = Tape::new(&rnd);
+    let t = &mut t;
+    let xpub = gp::gen_xpub(t);
+    let fp1 = Fingerprint::from([1, 2, 3, 4]);
+    let fp2 = Fingerprint::from([9, 9, 9, 9]);
+    // distinct elements (a flipped element never collides with a neighbour by accident)
+    let fresh = |t: &mut Tape, n: usize| -> Vec<u32> { (0..n).map(|i| (t.edgy_u32() & !0xf00) | ((i as u32 + 1) << 8)).collect() };
+    let rel = idx % 12;
+    let other_fp = |t: &mut Tape| if t.bool() { fp1 } else { fp2 };
+    const NAMES: [&str; 12] = [
+        "equal",
+        "first-is-suffix-of-second",
+        "second-is-suffix-of-first",
+        "unrelated-equal-length(any position)",
+        "unrelated-first-shorter(any position of the overlap)",
+        "unrelated-first-longer(any position of the overlap)",
+        "equal-path-different-fingerprint",
+        "both-empty-different-fingerprint",
+        "both-empty-equal",
+        "empty-vs-non-empty",
+        "unrelated-first-shorter(first overlapped element only)",
+        "unrelated-first-longer(first overlapped element only)",
+    ];
+    // expect: Some(0) equal, Some(1) the first source wins (it is the longer one), Some(2) the second, None conflict
+    let (s1, s2, expect): ((Fingerprint, Vec<u32>), (Fingerprint, Vec<u32>), Option<usize>) = match rel {
+        0 => {
+            let n = t.below(9);
+            let base = fresh(t, n);
+            ((fp1, base.clone()), (fp1, base), Some(0))
+        }
+        1 | 2 => {
+            let n = 1 + t.below(8);
+            let base = fresh(t, n);
+            let extra = 1 + t.below(3);
+            let mut long: Vec<u32> = (0..extra).map(|_| t.edgy_u32()).collect();
+            long.extend(&base);
+            let f = other_fp(t);
+            if rel == 1 {
+                ((fp1, base), (f, long), Some(2))
+            } else {
+                ((f, long), (fp1, base), Some(1))
+            }
+        }
+        3 => {
+            let n = 1 + t.below(8);
+            let base = fresh(t, n);
+            let mut other = base.clone();
+            let at = t.below(n);
+            other[at] ^= 1 << t.below(32);
+            ((fp1, base), (other_fp(t), other), None)
+        }
+        4 | 5 | 10 | 11 => {
+            let n = if rel >= 10 { 2 + t.below(7) } else { 1 + t.below(8) };
+            let base = fresh(t, n);
+            let extra = 1 + t.below(3);
+            let mut long: Vec<u32> = (0..extra).map(|_| t.edgy_u32()).collect();
+            long.extend(&base);
+            let at = if rel >= 10 { 0 } else { t.below(n) };
+            long[extra + at] ^= 1 << t.below(32);
+            let f = other_fp(t);
+            if rel == 4 || rel == 10 {
+                ((fp1, base), (f, long), None)
+            } else {
+                ((f, long), (fp1, base), None)
+            }
+        }
+        6 => {
+            let n = 1 + t.below(8);
+            let base = fresh(t, n);
+            ((fp1, base.clone()), (fp2, base), None)
+        }
+        7 => ((fp1, vec![]), (fp2, vec![]), None),
+        8 => ((fp1, vec![]), (fp1, vec![]), Some(0)),
+        _ => {
+            let n = 1 + t.below(8);
+            let base = fresh(t, n);
+            let f = other_fp(t);
+            if t.bool() {
+                ((fp1, vec![]), (f, base), Some(2))
+            } else {
+                ((f, base), (fp1, vec![]), Some(1))
+            }
+        }
+    };
+    // a common transaction: one input, one output
+    let mut base_pset = Pset::new_v2();
+    let mut inp = gp::gen_input(t, 0);
+    inp.required_time_locktime = None;
+    base_pset.add_input(inp);
+    base_pset.add_output(gp::gen_output(t, 0, 1));
+    // company for the second operand (and for the first one on odd rounds)
+    let mut before = xpub;
+    before.chain_code = elements::bitcoin::bip32::ChainCode::from([0u8; 32]);
+    let mut after = xpub;
+    after.chain_code = elements::bitcoin::bip32::ChainCode::from([0xffu8; 32]);
+    let company = |t: &mut Tape, p: &mut Pset, tag: u8| {
+        if before != xpub {
+            p.global.xpub.insert(before, gp::gen_key_source(t));
+        }
+        if after != xpub {
+            p.global.xpub.insert(after, gp::gen_key_source(t));
+        }
+        p.global.xpub.insert(gp::gen_xpub(t), gp::gen_key_source(t));
+        p.global.scalars.push(gen::gen_tweak(t));
+        p.global.elements_tx_modifiable_flag = Some(tag);
+        p.global.tx_data.tx_modifiable = Some(1 << (tag & 3));
+        let l = t.below(12);
+        let mut pk = gp::gen_prop_key(t, 0);
+        pk.key.push(tag);
+        p.global.proprietary.insert(pk, t.bytes(l));
+        let l = t.below(12);
+        let mut uk = gp::gen_unknown_key(t, 0);
+        uk.key.push(tag);
+        p.global.unknown.insert(uk, t.bytes(l));
+        let l = t.range(1, 72);
+        p.inputs_mut()[0].partial_sigs.insert(gp::gen_btc_key(t), t.bytes(l));
+        p.outputs_mut()[0].bip32_derivation.insert(gp::gen_btc_key(t), gp::gen_key_source(t));
+    };
+    let (mut a, mut b) = (base_pset.clone(), base_pset);
+    a.global.xpub.insert(xpub, (s1.0, path_of(&s1.1)));
+    b.global.xpub.insert(xpub, (s2.0, path_of(&s2.1)));
+    // the registry idea of `families`: both operands draw the company from the SAME tape position, so equal
+    // keys carry equal values; the tag makes the proprietary / unknown keys of the two operands disjoint
+    let company_tape = t.clone();
+    company(&mut company_tape.clone(), &mut b, 2);
+    let both = idx / 12 % 2 == 1;
+    if both {
+        company(&mut company_tape.clone(), &mut a, 1);
+        // identical flag fields on both sides (first-wins fields must not differ inside a family)
+        a.global.elements_tx_modifiable_flag = b.global.elements_tx_modifiable_flag;
+    }
+    let (ia, ib) = (uid(&a)?, uid(&b)?);
+    if ia.is_none() || ia != ib {
+        return Err(Failure::panic("xpub_sources_ext: operands do not share a unique id".into(), "src/props/c14.rs".into()));
+    }
+    let want: Option<KeySource> = expect.map(|w| match w {
+        0 | 1 => (s1.0, path_of(&s1.1)),
+        _ => (s2.0, path_of(&s2.1)),
+    });
+    let mut xkey = vec![0x01u8];
+    xkey.extend_from_slice(&xpub.encode());
+    for (x, y, order) in [(&a, &b, "a.merge(b)"), (&b, &a, "b.merge(a)")] {
+        let r = match do_merge(x, y) {
+            Ok(r) => r,
+            Err(f) => return Err(Failure { msg: format!("{} with xpub key sources {:?} / {:?} ({}): {}", order, s1, s2, NAMES[rel as usize], f.msg), panic_loc: f.panic_loc }),
+        };
+        ctx.eval();
+        match (&r, &want) {
+            (Ok(m), Some(w)) => {
+                let got = m.global.xpub.get(&xpub);
+                ensure!(
+                    got == Some(w),
+                    "{}: key sources {:?} / {:?} ({}) must be reconciled to {:?}, got {:?}",
+                    order,
+                    s1,
+                    s2,
+                    NAMES[rel as usize],
+                    w,
+                    got
+                );
+                // reconciliation must not cost anything else
+                ensure!(uid(m)? == ia, "{}: merge changed the unique id", order);
+                if let Err(f) = check_contains_except(m, x, "first", Some(&xkey), ctx).and_then(|()| check_contains_except(m, y, "second", Some(&xkey), ctx)) {
+                    return Err(Failure {
+                        msg: format!("{} while reconciling key sources {:?} / {:?} ({}) of a global xpub: {}", order, s1, s2, NAMES[rel as usize], f.msg),
+                        panic_loc: f.panic_loc,
+                    });
+                }
+            }
+            (Err(_), None) => {}
+            (Ok(m), None) => {
+                return Err(Failure::new(format!(
+                    "{}: conflicting key sources {:?} / {:?} ({}) were silently resolved to {:?} instead of a merge conflict",
+                    order,
+                    s1,
+                    s2,
+                    NAMES[rel as usize],
+                    m.global.xpub.get(&xpub)
+                )));
+            }
+            (Err(e), Some(_)) => return Err(Failure::new(format!("{}: reconcilable key sources {:?} / {:?} ({}) gave {:?}", order, s1, s2, NAMES[rel as usize], e))),
+        }
+    }
+    ctx.class(&format!("xpub-ext:{}", NAMES[rel as usize]));
+    ctx.class(if both { "xpub-ext:company-in-both-operands" } else { "xpub-ext:company-in-second-operand" });
+    if s1.0 == s2.0 && s1.1 != s2.1 {
+        ctx.class("xpub-ext:different-paths-equal-fingerprints");
+    }
+    ctx.nontrivial(&(rel, &s1.1, &s2.1, both));
+    Ok(())
+}
+
+/// merge never panics, whatever the operands: unique ids that cannot be computed (lock-time conflict) on
+/// one or both sides, unrelated PSETs, different numbers of maps (review g5, C14-4). Every Ok / Err is
+/// accepted, except Ok for two computable, different ids.
+fn no_panic(t: &mut Tape, ctx: &mut Ctx) -> R {
+    let kind = t.below(4);
+    let mut a = gp::gen_pset(t, &PsetOpts::default());
+    let conflict = |t: &mut Tape, p: &mut Pset| {
+        // one input requires a time, another one a height: no lock time satisfies both
+        while p.inputs().len() < 2 {
+            p.add_input(gp::gen_input(t, 40));
+        }
+        let n = p.inputs().len();
+        let k = t.below(n);
+        let j = (k + 1 + t.below(n - 1)) % n;
+        let tm = gp::gen_time(t);
+        let h = gp::gen_height(t);
+        let ins = p.inputs_mut();
+        ins[k].required_time_locktime = Some(tm);
+        ins[k].required_height_locktime = None;
+        ins[j].required_time_locktime = None;
+        ins[j].required_height_locktime = Some(h);
+    };
+    let (b, label) = match kind {
+        0 => (gp::gen_pset(t, &PsetOpts::default()), "independent"),
+        1 => {
+            // the same transaction, one side cannot compute its id
+            let b = a.clone();
+            conflict(t, &mut a);
+            (b, "conflict-vs-sibling")
+        }
+        2 => {
+            // both fail the same way, but have different numbers of maps
+            conflict(t, &mut a);
+            let mut b = a.clone();
+            match t.below(4) {
+                0 => b.add_input(gp::gen_input(t, 60)),
+                1 => {
+                    let n = b.inputs().len();
+                    b.add_output(gp::gen_output(t, 60, n))
+                }
+                2 if !b.outputs().is_empty() => {
+                    let k = t.below(b.outputs().len());
+                    b.remove_output(k);
+                }
+                _ => {
+                    // removing a non-conflicting input keeps the conflict when there are >= 3
+                    let k = b.inputs().len() - 1;
+                    b.remove_input(k);
+                }
+            }
+            (b, "both-conflict-different-map-counts")
+        }
+        _ => {
+            conflict(t, &mut a);
+            let mut b = gp::gen_pset(t, &PsetOpts::default());
+            if t.bool() {
+                conflict(t, &mut b);
+            }
+            (b, "conflict-vs-independent")
+        }
+    };
+    let (ia, ib) = (uid(&a)?, uid(&b)?);
+    for (x, y, order) in [(&a, &b, "a.merge(b)"), (&b, &a, "b.merge(a)")] {
+        let r = match do_merge(x, y) {
+            Ok(r) => r,
+            Err(f) => {
+                return Err(Failure {
+                    msg: format!(
+                        "{} of PSETs with {} / {} inputs, {} / {} outputs, unique id computable: {} / {} ({}): {}",
+                        order,
+                        x.inputs().len(),
+                        y.inputs().len(),
+                        x.outputs().len(),
+                        y.outputs().len(),
+                        if std::ptr::eq(x, &a) { ia.is_some() } else { ib.is_some() },
+                        if std::ptr::eq(x, &a) { ib.is_some() } else { ia.is_some() },
+                        label,
+                        f.msg
+                    ),
+                    panic_loc: f.panic_loc,
+                })
+            }
+        };
+        ctx.eval();
+        if let (Some(i), Some(j), Ok(_)) = (ia, ib, &r) {
+            ensure!(i == j, "{}: PSETs with different unique ids were merged ({})", order, label);
+        }
+        ctx.class(&format!("no-panic:{}:{}", label, if r.is_ok() { "merged" } else { "refused" }));
+    }
+    ctx.class(match (ia.is_some(), ib.is_some()) {
+        (true, true) => "no-panic:ids:both-computable",
+        (false, false) => "no-panic:ids:neither-computable",
+        _ => "no-panic:ids:one-computable",
+    });
+    if ia.is_none() || ib.is_none() {
+        ctx.nontrivial(&(label, a.inputs().len(), b.inputs().len(), a.outputs().len(), b.outputs().len(), hex(&ia.unwrap_or([0; 32])), hex(&ib.unwrap_or([0; 32]))));
+    }
     Ok(())
 }
 
@@ -718,17 +1298,37 @@ pub fn property() -> Property {
                additions from a table of 61 slots covering every map and optional field at global / input / output level \
                (the content of a slot is a function of the case seed, so equal slots carry identical data and different key \
                indices give disjoint keys); descendants whose unique id changed are discarded and counted. Oracle: merge Ok, \
-               unique id kept, every raw key/value pair of either operand present in the result, merge(a,b) == merge(b,a), all \
-               tried orders / rotations / groupings of >=3 descendants equal. different_ids: a changed prevout / output / tx \
-               version => Err(UniqueIdMismatch). xpub_sources: all 8 relations between two key sources of one xpub (equal, \
+               unique id kept, every raw key/value pair of either operand present in the result (for the global \
+               tx-modifiable flags: every bit of either operand set in the result), merge(a,b) == merge(b,a), all \
+               tried orders / rotations / groupings of >=3 descendants equal. families_ext: the same with 67 slots (adds \
+               required height / time lock times that another input's requirement or the fallback covers, explicit \
+               issuance amount / inflation keys beside their commitments, zero issuance nonce / entropy), flag bits that \
+               differ between descendants, and one more tape-chosen order and grouping. different_ids: a changed prevout \
+               txid / index / flag bit, output script / amount / asset / nonce, tx version, fallback or required lock time, \
+               issuance field, or one input / output more or fewer, whenever it changes the id => any Err, in both orders. \
+               xpub_sources: all 8 relations between two key sources of one xpub (equal, \
                suffix either way, empty path, unrelated equal / shorter / longer, equal path with other fingerprint) in \
-               both orders: reconciled to the longer one or Err(MergeConflict); never a panic. Non-trivial: operands added \
-               different keys to the same map or both added the same field, or any xpub relation; distinct by slots.",
-        assumptions: &["additions are restricted to fields that do not enter the unsigned transaction id (checked: descendants with a changed id are discarded)"],
+               both orders: reconciled to the longer one or Err; never a panic. xpub_sources_ext: 12 relations (mismatch at \
+               any position of the overlap, first overlapped element only, both paths empty with equal / different \
+               fingerprints, suffix pairs with equal fingerprints, paths up to 11 elements) in PSETs that also carry other \
+               xpubs ordered before and after the tested one, a scalar, flags, proprietary / unknown pairs, a partial \
+               signature and an output derivation: reconciled to the longer source AND nothing else lost, or Err. \
+               no_panic: operands whose unique id cannot be computed (time-vs-height conflict) on one or both sides, \
+               unrelated PSETs, different numbers of maps: any Ok / Err, no panic. Non-trivial: operands added \
+               different keys to the same map or both added the same field, any xpub relation, any no_panic pair with an \
+               uncomputable id; distinct by slots.",
+        assumptions: &[
+            "additions are restricted to fields that do not enter the unsigned transaction id (checked: descendants with a changed id are discarded)",
+            "each bit of the global tx-modifiable flags is a field of its own: descendants setting different bits make disjoint additions, and the merged flags must contain the bits of every operand",
+            "key sources of one xpub related by a strict suffix are reconciled to the longer one (the algorithm documented in Global::merge); a refusal of such a pair is reported",
+        ],
         subs: vec![
             Sub { name: "families", kind: Kind::Tape { max_len: 7000, quick: 48_000, thorough: 600_000, f: families } },
             Sub { name: "different_ids", kind: Kind::Tape { max_len: 6000, quick: 24_000, thorough: 180_000, f: different_ids } },
             Sub { name: "xpub_sources", kind: Kind::Index { count: |t| t.pick(8 * 50, 8 * 2000), exhaustive: false, f: xpub_sources } },
+            Sub { name: "families_ext", kind: Kind::Tape { max_len: 7000, quick: 32_000, thorough: 600_000, f: families_ext } },
+            Sub { name: "xpub_sources_ext", kind: Kind::Index { count: |t| t.pick(12 * 400, 12 * 8000), exhaustive: false, f: xpub_sources_ext } },
+            Sub { name: "no_panic", kind: Kind::Tape { max_len: 9000, quick: 24_000, thorough: 480_000, f: no_panic } },
         ],
         known: vec![
             Known { key: KF_XPUB_UNDERFLOW, what: "merge panics when one global xpub has unrelated key sources of different length", repro: repro_underflow },
